@@ -4,6 +4,7 @@ package sched
 
 import (
 	"context"
+	"crypto/tls"
 	"fmt"
 	"maps"
 	"net"
@@ -39,6 +40,8 @@ type c15Spec struct {
 	desc       string
 	conns      []c15Conn
 	global     wire.Parameters
+	// secondTLS: connection "c2" is served by a SECOND server of the process, one that has certificates configured
+	secondTLS bool
 }
 
 func c15Specs() []c15Spec {
@@ -71,6 +74,8 @@ func c15Specs() []c15Spec {
 				{"c2", append(append([][]byte{st("u2")}, ext("3:p,c=Q2", "v-two")...), pgproto.Query("1:r,c=T2"))}}},
 		{name: "S-H", desc: "a CancelRequest connection, then two connections of which one registers a private type on its own type map and the other needs that type (type maps must be per connection)",
 			conns: []c15Conn{{"c0", [][]byte{pgproto.CancelRequest(1, 2)}}, {"c1", [][]byte{st("u1"), pgproto.Query("regtype"), pgproto.Query("usetype")}}, {"c2", [][]byte{st("u2"), pgproto.Query("usetype"), pgproto.Query("int4row")}}}},
+		{name: "S-T", desc: "two servers in one process, one without and one with certificates; each receives an SSLRequest at the same time (the answer byte belongs to the server that decided it)", secondTLS: true,
+			conns: []c15Conn{{"c1", [][]byte{pgproto.SSLRequest(), st("u1"), pgproto.Query("1:r,c=T1")}}, {"c2", [][]byte{pgproto.SSLRequest()}}}},
 		{name: "S-I", desc: "connection 1's handler waits until connection 2's handler has run (no connection may hold up another one)", dependency: true,
 			conns: []c15Conn{{"c1", [][]byte{st("u1"), pgproto.Query("wait-for-other")}}, {"c2", [][]byte{st("u2"), pgproto.Query("signal-other"), pgproto.Query("1:r,c=T2")}}}},
 		{name: "S-J", desc: "2 connections authenticating at the same time, one with the right and one with a wrong password followed by a pipelined Query (no AuthenticationOk, no command for the one that was not accepted)", auth: true,
@@ -231,11 +236,28 @@ func c15Run(spec c15Spec, only string, obs *c15Obs) {
 	l := memnet.NewSListener()
 	vsched.RegisterObject("server", unsafe.Pointer(srv), unsafe.Sizeof(*srv))
 	vsched.RegisterObject("listener", unsafe.Pointer(l), unsafe.Sizeof(*l))
+	var srv2 *wire.Server
+	l2 := memnet.NewSListener()
+	if spec.secondTLS {
+		srv2, err = wire.NewServer(parse, append(opts, wire.TLSConfig(&tls.Config{Certificates: []tls.Certificate{harness.Certificate()}}))...)
+		if err != nil {
+			panic(err)
+		}
+		vsched.RegisterObject("server2", unsafe.Pointer(srv2), unsafe.Sizeof(*srv2))
+		vsched.RegisterObject("listener2", unsafe.Pointer(l2), unsafe.Sizeof(*l2))
+	}
 	for _, sc := range conns {
 		vsched.RegisterObject("conn:"+sc.Name, unsafe.Pointer(sc), unsafe.Sizeof(*sc))
-		l.Inject(sc)
+		if spec.secondTLS && sc.Name == "mem:c2" {
+			l2.Inject(sc)
+		} else {
+			l.Inject(sc)
+		}
 	}
 	vsched.Go(func() { obs.served(srv.Serve(l)) })
+	if srv2 != nil {
+		vsched.Go(func() { srv2.Serve(l2) })
+	}
 	// wait until every connection has been closed by the server, then close the server
 	vsched.Cond("join-connections", vsched.Local(), func() bool {
 		for _, sc := range conns {
@@ -246,6 +268,9 @@ func c15Run(spec c15Spec, only string, obs *c15Obs) {
 		return true
 	})
 	srv.Close()
+	if srv2 != nil {
+		srv2.Close()
+	}
 	vsched.WaitOthers()
 	obs.transcript, obs.trace, obs.closed = map[string][]string{}, map[string][]string{}, map[string]bool{}
 	for _, sc := range conns {
@@ -329,6 +354,8 @@ func init() {
 		for _, sp := range c15Specs() {
 			bound := 2
 			switch {
+			case sp.name == "S-T":
+				continue // (C11's schedule part)
 			case tier != "thorough" && (sp.name == "S-D" || sp.name == "S-E" || sp.name == "S-J" || sp.name == "S-K" || sp.name == "S-L" || sp.name == "S-M"):
 				continue
 			case tier != "thorough" && sp.name == "S-H":
@@ -357,6 +384,22 @@ func init() {
 				b := bound
 				if (sp.name == "S-K" || sp.name == "S-L") && tier == "thorough" {
 					b = 3
+				}
+				out = append(out, Plan{Sc: sc, Bound: b})
+			}
+		}
+		return out
+	}
+	// C11 schedule part: two servers with different TLS configurations answering an SSLRequest at the same time
+	plans["C11"] = func(tier string) []Plan {
+		var out []Plan
+		for _, sp := range c15Specs() {
+			if sp.name == "S-T" {
+				sc := c15Scenario(sp)
+				sc.Property = "C11"
+				b := 2
+				if tier == "thorough" {
+					b = -1
 				}
 				out = append(out, Plan{Sc: sc, Bound: b})
 			}
